@@ -95,7 +95,7 @@ def run_merge(db, case):
 
 def run(ctx):
     thorough = ctx.tier == "thorough"
-    ctx.rule = ("D1: every ordered list of <= %s intervals over positions 1..6 x 6 seqid/strand/type patterns x 8 criteria sets (default, any-inclusive, exact, start-inclusive, "
+    ctx.rule = ("D1: every ordered list of <= %s intervals over positions 1..6 x 7 seqid/strand/type patterns x 8 criteria sets (default, any-inclusive, exact, start-inclusive, "
                 "three thresholds, empty) - MC_Intervals mode merge: PartitionOK, UnionLemma (default criteria on grouped sorted input = connected components), merged size = "
                 "union size; one case in %d replayed through FeatureDB.merge TWICE on the same objects (outputs, children by identity, distinct fresh ids, inputs and database "
                 "unchanged); D2: random gene models: children_bp(merge on/off) for every feature and merge_all(exclude_components on/off) on a file database compared row by "
